@@ -46,7 +46,7 @@ def c01_space(tier, alpha="basic", expiries=None, caps=None, with_collide=True, 
                 al = "weights" if cap in (1, 2) else "basic"
             base = dict(kind=kind, cap=cap, w=w, hash=h, alpha=al, **ex)
             if kind == "U":
-                d = dU if dU is not None else (8 if thorough else 5)
+                d = dU if dU is not None else (8 if thorough else 6)
                 if al == "weights":
                     d -= 1
                 kw = dict(base, keys=keysU, D=d, A=(a if a is not None else (2 if thorough else 1)))
@@ -55,7 +55,7 @@ def c01_space(tier, alpha="basic", expiries=None, caps=None, with_collide=True, 
                 for rg in regimes():
                     if rg["beyond"] == 0 and h == "collide":
                         continue
-                    d = dS if dS is not None else (7 if thorough else 5)
+                    d = dS if dS is not None else (7 if thorough else 6)
                     if al == "weights":
                         d -= 1
                     kw = dict(base, keys=keysS, D=d, Q=(q if q is not None else (3 if thorough else 2)),
@@ -76,11 +76,11 @@ def expiry_space(tier, prop):
             for cap in ("none", 2):
                 base = dict(kind=kind, cap=cap, alpha="expiry", keys=2 if cap == "none" else 3, **ex)
                 if kind == "U":
-                    kw = dict(base, D=10 if thorough else 7, A=4 if thorough else 3)
+                    kw = dict(base, D=10 if thorough else 8, A=4 if thorough else 3)
                     out.append(seqjob(name(prop.lower(), kw), **kw))
                 else:
                     for rg in regimes():
-                        kw = dict(base, D=8 if thorough else 6, Q=3 if thorough else 2, A=4 if thorough else 3, **rg)
+                        kw = dict(base, D=9 if thorough else 7, Q=3 if thorough else 2, A=4 if thorough else 3, **rg)
                         out.append(seqjob(name(prop.lower(), kw), **kw))
     return out
 
@@ -93,7 +93,7 @@ def lru_space(tier):
             keys = min(cap + 2, 5) if cap <= 4 else (cap + 1)
             if w == 1 and cap > 4:
                 continue
-            d = (8 if thorough else 6) if cap <= 2 else (7 if thorough else 5)
+            d = (8 if thorough else 7) if cap <= 2 else (7 if thorough else 6)
             if cap > 4:
                 d = cap + 3
                 keys = cap + 1
@@ -119,13 +119,13 @@ def pure_space(tier):
         for c in cfgs:
             kw = dict(dict(kind=kind, alpha="basic", pure=1, keys=3, A=2), **c)
             if kind == "U":
-                kw.update(D=6 if thorough else 4)
+                kw.update(D=7 if thorough else 6)
                 if kw["alpha"] == "weights":
                     kw["D"] -= 1
                 out.append(seqjob(name("pure", kw), **kw))
             else:
                 for rg in regimes():
-                    k2 = dict(kw, D=6 if thorough else 4, Q=2, **rg)
+                    k2 = dict(kw, D=7 if thorough else 5, Q=2, **rg)
                     if k2["alpha"] == "weights":
                         k2["D"] -= 1
                     out.append(seqjob(name("pure", k2), **k2))
@@ -230,10 +230,10 @@ def _jobs_for(prop, tier):
     if prop == "C03":
         # no-pressure configurations for the lower bound, small capacities for M-room;
         # deeper than C01 because drift shows on the refill after expiry/invalidation
-        return (c01_space(tier, caps=["none"], with_collide=False, prefix="c03", dU=9 if thorough else 6, dS=8 if thorough else 6, keysU=2, keysS=2, a=3 if thorough else 2)
-                + c01_space(tier, caps=[1, 2, 3], with_collide=False, prefix="c03", dU=9 if thorough else 6, dS=7 if thorough else 5, a=2 if thorough else 1))
+        return (c01_space(tier, caps=["none"], with_collide=False, prefix="c03", dU=10 if thorough else 7, dS=9 if thorough else 7, keysU=2, keysS=2, a=3 if thorough else 2)
+                + c01_space(tier, caps=[1, 2, 3], with_collide=False, prefix="c03", dU=9 if thorough else 7, dS=8 if thorough else 6, a=2 if thorough else 1))
     if prop == "C04":
-        return c01_space(tier, alpha="c04", caps=[0, 1, 2, 3], weighers=(1,), with_collide=False, prefix="c04", dU=7 if thorough else 5, dS=6 if thorough else 4, keysU=2, keysS=2) + \
+        return c01_space(tier, alpha="c04", caps=[0, 1, 2, 3], weighers=(1,), with_collide=False, prefix="c04", dU=8 if thorough else 6, dS=7 if thorough else 5, keysU=2, keysS=2) + \
             c01_space(tier, caps=[0, 1, 2], weighers=(0,), expiries=[dict(), dict(ttl=2, tti=3)], with_collide=True, prefix="c04")
     if prop in ("C05", "C06"):
         return expiry_space(tier, prop)
@@ -242,9 +242,9 @@ def _jobs_for(prop, tier):
     if prop == "C08":
         return c08_space(tier)
     if prop == "C10":
-        return c01_space(tier, caps=["none", 1, 2], with_collide=False, prefix="c10", dU=9 if thorough else 6, dS=7 if thorough else 5)
+        return c01_space(tier, caps=["none", 1, 2], with_collide=False, prefix="c10", dU=9 if thorough else 7, dS=8 if thorough else 6)
     if prop == "C11":
-        return c01_space(tier, caps=["none", 1, 2], with_collide=False, prefix="c11", dU=8 if thorough else 5, dS=7 if thorough else 5) + \
+        return c01_space(tier, caps=["none", 1, 2], with_collide=False, prefix="c11", dU=9 if thorough else 6, dS=8 if thorough else 6) + \
             [{"id": "deque-4", "argv": ["dequex", "4", "40"]}]
     if prop in ("C12", "C13"):
         return lru_space(tier)
@@ -253,7 +253,7 @@ def _jobs_for(prop, tier):
     if prop == "C15":
         return pure_space(tier)
     if prop == "C16":
-        return c01_space(tier, caps=["none", 2], with_collide=False, prefix="c16", a=3 if thorough else 2, dU=8 if thorough else 6)
+        return c01_space(tier, caps=["none", 2], with_collide=False, prefix="c16", a=3 if thorough else 2, dU=8 if thorough else 7, dS=7 if thorough else 6)
     if prop == "C17":
         return [{"id": "cfgx", "argv": ["cfgx"]}]
     return []
